@@ -90,7 +90,7 @@ def run_tlc(module: str, cfg: str | None = None, *, workers: int | str = 1,
     cfg = cfg or module
     own = scratch is None
     scratch = scratch or Path(tempfile.mkdtemp(prefix="tlc-", dir=os.environ.get("TMPDIR", "/var/tmp")))
-    meta = scratch / ("meta-" + cfg)
+    meta = Path(tempfile.mkdtemp(prefix=f"meta-{cfg}-", dir=str(scratch)))      # unique: the same configuration may run concurrently (C18 batches)
     java = ["java", "-XX:+UseParallelGC", "-Xmx" + heap, "-Xss64m"]
     if deque:
         java.append("-Dtlc2.tool.queue.IStateQueue=StateDeque")
